@@ -16,6 +16,11 @@ clauses
                  same trees (independent lazy states, independent intermediate orders, equivalent routes):
                  unfuse(fa +- fb) == a +- b, vdot(fa, fb) == vdot(a, b), tensordot over fused legs == over originals,
                  trace over fused pairs == trace over originals, to_numpy(legs=union) / legs_union / _embed relations
+  partial        groups fused independently by hard / meta / no fusion (native rank <= 8, nested groups), optional lazy transpose, ONE
+                 unfuse_legs call on a random subset of the fused legs (biased to two hard legs of different size around a meta leg
+                 that stays fused): the INTERMEDIATE tensor is judged - histories, native constituents of every logical leg against
+                 the universe legs (logical grouping), agreement with unfusing the same legs one call at a time (legs, shape,
+                 elements), vdot / tensordot over the logical legs with a partner unfused leg by leg, then the round trip
   block          yastn.block vs the harness direct sum: norm, vdot, full contraction over blocked legs, sum then
                  contraction, trace over a blocked pair; blocks of fused pieces and fusions of blocked legs; SUM-NODE MISMATCH:
                  sectors of the blocked leg removed after block() (explicit zero blocks + remove_zero_blocks, different sectors in
@@ -38,7 +43,7 @@ from vmon.harness import CaseSkip
 from checks.c01 import check_result, fnorm, realize, yerr
 
 PROP = "C03"
-RULE = ("case = (symmetry, kind in roundtrip/pair/tensordot/trace/block/reject, universe legs with 1-3 sectors of dim 1-3, block "
+RULE = ("case = (symmetry, kind in roundtrip/partial/pair/tensordot/trace/block/reject, universe legs with 1-3 sectors of dim 1-3, block "
         "presence masks with a requested relation equal/overlapping/disjoint, fusion trees: ALL ordered partitions of rank<=4 at "
         "depth 1 (enumerated over 7 symmetries x 3 routes) and sampled trees of rank<=6, depth<=3, route hard/meta/meta-then-hard/"
         "hard-then-meta/fuse_meta_to_hard, lazy state of every operand and of the fused tensor, tensordot policy); distinct = hash "
@@ -54,7 +59,7 @@ ENUM_ROUTES = ("hard", "meta", "fuse_meta_to_hard")
 STRIDE_QUICK = 11
 N_SAMPLED = {"quick": 8960, "thorough": 134400}
 KINDS = ("roundtrip", "pair", "tensordot", "roundtrip", "trace", "block", "pair", "reject",
-         "roundtrip", "tensordot", "block", "reject", "roundtrip", "pair", "trace", "reject")
+         "partial", "tensordot", "block", "reject", "roundtrip", "pair", "trace", "reject")
 
 
 # ------------------------------------------------------------------ trees
@@ -521,6 +526,218 @@ def case_roundtrip(E):
     d = depth_of(trees)
     target = pick_target(E.rng, d)
     roundtrip(E, a, trees, target, pick_route(E.rng, target, d))
+
+
+# ------------------------------------------------------------------ kind: partial unfuse of mixed hard / meta fused tensors
+
+def apply_mixed(y, trees, kinds):
+    """Realise trees whose internal nodes carry INDEPENDENT kinds ('p' hard / 'm' meta; descendants of a 'p' node are 'p'):
+    hard nodes bottom-up first (a hard call would convert meta fusions), then meta nodes bottom-up.  The first call brings
+    the legs into the final flattened order."""
+    flat = flat_of(trees)
+    items = sorted(flat)
+    nodes = [N for T in trees for N in nodes_of(T)]
+    calls = [(k, h) for k in ("p", "m") for h in range(1, depth_of(trees) + 1) if any(kinds[N] == k and height(N) == h for N in nodes)]
+    if not calls:
+        return y.fuse_legs(axes=tuple(items.index(x) for x in flat), mode="meta")
+    for k, h in calls:
+        now = [N for N in nodes if kinds[N] == k and height(N) == h]
+        consumed = [c for N in now for c in N]
+        new_items = [it for it in items if it not in consumed] + now
+        new_items.sort(key=lambda it: flat.index(leaves(it)[0]))
+        axes = tuple(tuple(items.index(c) for c in it) if it in now else items.index(it) for it in new_items)
+        y = y.fuse_legs(axes=axes, mode="hard" if k == "p" else "meta")
+        items = new_items
+    assert items == list(trees)
+    return y
+
+
+def gen_mixed(rng, special):
+    """3-4 groups of 1-3 legs (native rank <= 8), mode of every group chosen independently; size-3 groups may be nested, and the
+    inner pair of a meta group may itself be hard-fused.  special: [hard(k1), meta, hard(k2 != k1)] in this logical order."""
+    if special:
+        k1, k2 = rng.sample((2, 3), 2)
+        spec = [("p", k1), ("m", rng.randint(2, 3)), ("p", k2)]
+        if sum(k for _, k in spec) <= 7 and rng.random() < 0.4:
+            spec.insert(rng.randrange(4), (rng.choice(("o", "o", "m")), 1))
+    else:
+        while True:
+            spec = [(rng.choice(("p", "p", "m", "m", "o")), rng.randint(1, 3)) for _ in range(rng.randint(3, 4))]
+            if sum(k for _, k in spec) <= 8 and sum(k > 1 and m != "o" for m, k in spec) >= 2:
+                break
+    rank = sum(k if m != "o" else 1 for m, k in spec)
+    perm = list(range(rank))
+    rng.shuffle(perm)
+    trees, kinds, pos = [], {}, 0
+    for m, k in spec:
+        if m == "o" or k == 1:
+            trees.append(perm[pos])
+            pos += 1
+            continue
+        g = perm[pos:pos + k]
+        pos += k
+        if k == 3 and rng.random() < 0.35:
+            inner = tuple(g[:2]) if rng.random() < 0.5 else tuple(g[1:])
+            T = (inner, g[2]) if inner == tuple(g[:2]) else (g[0], inner)
+            kinds[inner] = "p" if (m == "p" or rng.random() < 0.6) else "m"
+        else:
+            T = tuple(g)
+        kinds[T] = m
+        trees.append(T)
+    return trees, kinds, spec
+
+
+def constituents_ok(leg, T, kinds, ulegs):
+    """The native constituents of one logical leg against the expected tree: unfused constituents must be sub-legs of the universe
+    legs of exactly the expected original legs (this is what a wrong meta-fusion bookkeeping breaks), hard-fused ones must hold
+    the expected number of original legs."""
+    exp = []          # maximal 'p' subtrees / leaves in order
+
+    def walk(N):
+        if isinstance(N, tuple) and kinds[N] == "m":
+            for c in N:
+                walk(c)
+        else:
+            exp.append(N)
+    walk(T)
+    got = list(leg.legs) if hasattr(leg, "legs") else [leg]
+    if len(got) != len(exp):
+        return f"{len(got)} native constituents, expected {len(exp)}"
+    for g, N in zip(got, exp):
+        if isinstance(N, tuple):
+            if g.hf.tree[0] != len(leaves(N)):
+                return f"hard-fused constituent holds {g.hf.tree[0]} original legs, expected {len(leaves(N))}"
+            if g.s != ulegs[leaves(N)[0]].s:
+                return "signature of a hard-fused constituent"
+        else:
+            if g.hf.tree[0] != 1:
+                return f"constituent for original leg {N} is fused ({g.history()})"
+            bad = D.sub_leg_ok(g, ulegs[N])
+            if bad:
+                return f"constituent expected to be original leg {N}: {bad}"
+    return None
+
+
+def check_grouping(E, label, r, trees, kinds, ulegs):
+    ctx = E.ctx
+    if r.ndim != len(trees):
+        ctx.violation("partial-unfuse:rank", f"{label}: {r.ndim} logical legs, expected {len(trees)} ({trees})", E.sample(label))
+        return False
+    legs = r.get_legs()
+    hs, eh = [l.history() for l in legs], [hist(T, lambda N: kinds[N]) for T in trees]
+    if hs != eh:
+        ctx.violation("partial-unfuse:history", f"{label}: leg histories {hs}, expected {eh}", E.sample(label))
+        return False
+    for i, (l, T) in enumerate(zip(legs, trees)):
+        bad = constituents_ok(l, T, kinds, ulegs)
+        if bad:
+            ctx.violation("partial-unfuse:grouping", f"{label}: logical leg {i} (expected to hold original legs {leaves(T)}): {bad}", E.sample(label))
+            return False
+    return True
+
+
+def case_partial(E):
+    """ONE unfuse_legs call on a random subset of the fused legs of a tensor whose groups are hard-, meta- or not fused
+    independently; the INTERMEDIATE tensor is judged (logical grouping, histories, shape, elements, contraction with a partner)."""
+    import yastn
+    ctx, rng = E.ctx, E.rng
+    special = rng.random() < 0.45
+    trees, kinds, spec = gen_mixed(rng, special)
+    rank = len(flat_of(trees))
+    legs = [D.gen_leg(rng, E.sym, nsec=(1, 2), dmax=1 if rank > 6 else 2, box=E.box if E.sym != "dense" else None) if E.sym != "dense"
+            else D.HLeg("dense", rng.choice((-1, 1)), [((), rng.randint(1, 2))]) for _ in range(rank)]
+    n = D.gen_n(rng, E.sym, legs, "fit")
+    dt = rng.choice(("float64", "complex128"))
+    a = D.gen_tensor(rng, E.nprng, E.sym, legs=legs, n=n, dtype=dt, density=rng.choice((1.0, 0.7, 0.5)))
+    b = D.gen_tensor(rng, E.nprng, E.sym, legs=legs, n=n, dtype=dt, density=rng.choice((1.0, 0.7)))
+    E.operands = [a, b]
+    E.info = {"trees": repr(trees), "kinds": repr(sorted(kinds.items(), key=str)), "special": special}
+    fa = apply_mixed(E.real(a), trees, kinds)
+    fb = apply_mixed(E.real(b), trees, kinds)
+    if not check_grouping(E, "fused", fa, trees, kinds, legs):
+        return
+    q = list(range(len(trees)))
+    if not special and rng.random() < 0.6:
+        rng.shuffle(q)
+    st = rng.choice(("lazy", "lazy", "consumed", "none"))
+    if q != sorted(q) and st != "none":
+        fa, fb = fa.transpose(tuple(q)), fb.transpose(tuple(q))
+        if st == "consumed":
+            fa = fa.consume_transpose()
+        cur = [trees[i] for i in q]
+    else:
+        cur, st = list(trees), "none"
+    E.states.append("post:" + st)
+    fused = [i for i, T in enumerate(cur) if isinstance(T, tuple)]
+    if special:
+        pick = [i for i in fused if kinds[cur[i]] == "p"]                   # both hard legs, the meta leg between them stays fused
+    else:
+        pick = rng.sample(fused, rng.randint(1, len(fused)))
+    rng.shuffle(pick)
+    E.info["unfuse"] = list(pick)
+    hard = sorted(i for i in pick if kinds[cur[i]] == "p")
+    if len(hard) >= 2:
+        ctx.count("partial_unfuse_several_hard_legs")
+        for i, j in zip(hard, hard[1:]):
+            if len(cur[i]) != len(cur[j]) and any(isinstance(cur[k], tuple) and kinds[cur[k]] == "m" and k not in pick for k in range(i + 1, j)):
+                ctx.count("partial_unfuse_meta_between_unequal_hard")
+                break
+    # the call under test
+    r = fa.unfuse_legs(axes=pick[0] if (len(pick) == 1 and rng.random() < 0.5) else tuple(pick))
+    new = []
+    for i, T in enumerate(cur):
+        new.extend(T) if i in pick else new.append(T)
+    ctx.count("partial_unfuse_calls")
+    ok = check_grouping(E, "partially unfused", r, new, kinds, legs)
+    # reference route: the same legs, one call at a time (highest index first, so that the indices stay valid)
+    ra, rb = fa, fb
+    for i in sorted(pick, reverse=True):
+        ra, rb = ra.unfuse_legs(axes=i), rb.unfuse_legs(axes=i)
+    if tuple(r.get_shape()) != tuple(ra.get_shape()) or tuple(r.get_legs()) != tuple(ra.get_legs()):
+        ctx.violation("partial-unfuse:one-call-vs-one-by-one:legs", f"unfuse_legs(axes={pick}) gives logical shape {r.get_shape()}, unfusing the same legs "
+                      f"one call at a time gives {ra.get_shape()} (legs or their grouping differ)", E.sample("partial"))
+        ok = False
+    elif not np.array_equal(r.to_numpy(), ra.to_numpy()):
+        ctx.violation("partial-unfuse:one-call-vs-one-by-one:elements", f"unfuse_legs(axes={pick}) and one call per leg give different dense arrays",
+                      E.sample("partial"))
+        ok = False
+    if not ok:
+        # the logical structure of the intermediate tensor is already refuted: contractions with it would only add follow-up noise
+        ctx.count("partial_unfuse_cases")
+        E.done(nontrivial=bool(a.blocks), extra=(tuple(pick), st))
+        return
+    # full contraction over the logical legs with a partner fused and (one by one) unfused the same way
+    da, db = a.dense(), b.dense()
+    v = yastn.vdot(rb, r)
+    ev = np.vdot(db, da)
+    tol = 8 * EPS * (da.size + 2) * max(fnorm(da) * fnorm(db), 1e-300)
+    if not ctx.margin("arith:partial-vdot", abs(complex(v) - complex(ev)), tol):
+        ctx.violation("value:partial-vdot", f"vdot over the logical legs of the partially unfused tensors {v}, over the original legs {ev}", E.sample("partial"))
+    # contraction over the legs that are still fused (and one more), the rest compared after complete unfusing
+    still = [i for i, T in enumerate(new) if isinstance(T, tuple)]
+    if still and ok:
+        ax = sorted(set(still + [rng.randrange(len(new))]))
+        t = yastn.tensordot(r, rb, axes=(tuple(ax), tuple(ax)), conj=(0, 1))
+        rem = [T for i, T in enumerate(new) if i not in ax]
+        rem2 = rem + [relabel(T, {x: rank + x for x in range(rank)}) for T in rem]
+        t, flat = unfuse_all(ctx, t, rem2, rng)
+        cl = [x for i in ax for x in leaves(new[i])]
+        e = np.tensordot(da, np.conj(db), axes=(cl, cl))
+        keep = [x for x in range(rank) if x not in cl]
+        so = keep + [rank + x for x in keep]
+        e = np.transpose(e, [so.index(x) for x in flat]) if flat else e
+        lg = [legs[x] if x < rank else legs[x - rank].conj() for x in flat]
+        K = int(np.prod([legs[x].dim for x in cl]))
+        check_unfused(E, "partial-tensordot", t, (e, lg, G.add(E.sym, (n, n), (1, -1))), tol=8 * EPS * (K + 2) * max(fnorm(da) * fnorm(db), 1e-300))
+        ctx.count("binary_ops")
+    # and the round trip: unfusing what is left restores the original tensor
+    z, flat = unfuse_all(ctx, r, new, rng)
+    e, lg = perm_dense(da, legs, flat)
+    check_unfused(E, "roundtrip", z, (e, lg, n))
+    ctx.count("round_trips")
+    ctx.count("partial_unfuse_cases")
+    ctx.count("rank:%d" % rank)
+    E.done(nontrivial=bool(a.blocks), extra=(tuple(pick), st))
 
 
 # ------------------------------------------------------------------ kind: pair over the same universe legs (+, -, add, vdot, embedding)
@@ -1389,6 +1606,8 @@ def floors(tier):
           "op:add": 400 * k, "op:vdot": 400 * k, "op:tensordot": 280 * k, "op:trace": 280 * k, "embeddings_in_union_mismatched": 90 * k,
           "must_reject": 2000 * k, "rejected_with_YastnError": 2000 * k, "reject_controls_accepted": 200 * k,
           "block_cases": 280 * k, "block_mismatched_ops": 140 * k, "op:block-trace": 30 * k, "op:block-fused-trace": 30 * k,
+          "partial_unfuse_calls": 140 * k, "partial_unfuse_several_hard_legs": 70 * k, "partial_unfuse_meta_between_unequal_hard": 35 * k,
+          "rank:7": 40 * k, "rank:8": 40 * k,
           "block_sum_node_sector_mismatch": 50 * k, "block_fused_roundtrips": 60 * k, "add3_last_like_first": 50 * k,
           "lazy_operands": 5000 * k, "fused_lazily_transposed": 170 * k, "unfuse_multi_axes_on_lazy_tensor": 45 * k,
           "additions_with_common_pending_transpose": 240 * k, "pairs_fused_by_equivalent_routes": 140 * k,
@@ -1406,7 +1625,7 @@ def floors(tier):
 
 
 DISPATCH = {"roundtrip": case_roundtrip, "pair": case_pair, "tensordot": case_tensordot, "trace": case_trace, "block": case_block,
-            "reject": case_reject}
+            "reject": case_reject, "partial": case_partial}
 
 
 def run_case(ctx, idx):
